@@ -45,6 +45,10 @@ pub enum OrderKind {
     /// generation order; every invalid block is delivered again 36-50 positions later while the
     /// verify thread is slowed down, so both copies are queued before the first is judged
     InvalidDupLagged,
+    /// A -> B -> A: the first blocks of the finally best chain after a fork point, then a side
+    /// branch that is heavier than those, then the rest; one submitter, parents first, so every
+    /// intermediate tip is adopted and the first blocks are re-attached as "already verified"
+    SwitchBack,
 }
 
 #[derive(Clone)]
@@ -105,7 +109,7 @@ pub fn run(args: &Args) -> i32 {
     };
     let mut rng = Rng::new(args.seed);
     let n_trees = args.get_u64("trees", args.tier.pick(10, 120));
-    let n_orders = args.get_u64("orders", args.tier.pick(5, 10));
+    let n_orders = args.get_u64("orders", args.tier.pick(6, 11));
     let deadline = Instant::now() + Duration::from_secs(args.get_u64("budget_s", args.tier.pick(70, 900)));
     for ti in 0..n_trees {
         if Instant::now() > deadline {
@@ -138,7 +142,8 @@ pub fn run(args: &Args) -> i32 {
                 2 => OrderKind::ChildBeforeParent,
                 3 => OrderKind::RandomWithDuplicates,
                 4 => OrderKind::InOrderInvalidTwice,
-                5 => OrderKind::InvalidDupLagged,
+                5 => OrderKind::SwitchBack,
+                6 => OrderKind::InvalidDupLagged,
                 _ => {
                     if trng.bool() {
                         OrderKind::Random
@@ -147,7 +152,7 @@ pub fn run(args: &Args) -> i32 {
                     }
                 }
             };
-            let threads = if oi < 2 || oi == 4 || oi == 5 { 1 } else { 1 + trng.usize_below(4) };
+            let threads = if oi < 2 || oi == 4 || oi == 5 || oi == 6 { 1 } else { 1 + trng.usize_below(4) };
             let readers = if oi == 0 { 0 } else { trng.usize_below(3) };
             let with_plan = oi >= 2;
             deliver_and_check(&tg, &gi, &kind, threads, readers, with_plan, &mut trng, shape, &mut r);
@@ -168,6 +173,9 @@ pub fn run(args: &Args) -> i32 {
     r.c01.require("trees", 1);
     r.c01.require("deliveries_runs", 1);
     r.c01.require("obs.reorgs", 1);
+    if n_orders > 5 && FIXED_ORDER.with(|f| f.borrow().is_none()) {
+        r.c01.require("order.SwitchBack.realised", 1);
+    }
     r.c01.require("obs.orphaned_deliveries", 1);
     r.c01.require("hook.chain::after_store_snapshot", 1);
     r.c02.require("dump_compares", 1);
@@ -353,6 +361,39 @@ fn make_order(tg: &TreeGen, kind: &OrderKind, rng: &mut Rng) -> Vec<H> {
                 v = res;
             }
         }
+        OrderKind::SwitchBack => {
+            let all: HashSet<H> = v.iter().cloned().collect();
+            let (_, best) = tg.rc.best(&all);
+            if let Some(best_tip) = best.first() {
+                let p: Vec<H> = tg.rc.path(best_tip);
+                let on_p: HashMap<H, usize> = p.iter().enumerate().map(|(i, x)| (*x, i)).collect();
+                let best_td = tg.rc.get(best_tip).td.clone();
+                // candidate side tips: fully valid, off the best path, lighter than the best tip
+                let mut choice: Option<(usize, usize, H)> = None; // (fork index on p, k, side tip)
+                for t in &v {
+                    let rt = tg.rc.get(t);
+                    if !rt.chain_valid || on_p.contains_key(t) || rt.td >= best_td {
+                        continue;
+                    }
+                    let tp = tg.rc.path(t);
+                    let Some(fi) = tp.iter().rev().find_map(|x| on_p.get(x).cloned()) else { continue };
+                    // k = number of best-path blocks after the fork point that stay lighter than t
+                    let k = p[fi + 1..].iter().take_while(|x| tg.rc.get(x).td < rt.td).count();
+                    if k >= 1 && fi + 1 + k < p.len() && choice.as_ref().map(|c| k > c.1).unwrap_or(true) {
+                        choice = Some((fi, k, *t));
+                    }
+                }
+                if let Some((fi, k, t)) = choice {
+                    let mut res: Vec<H> = p[1..=fi + k].to_vec();
+                    let tp = tg.rc.path(&t);
+                    let start = tp.iter().position(|x| *x == p[fi]).unwrap_or(0);
+                    res.extend(tp[start + 1..].iter().cloned());
+                    let seen: HashSet<H> = res.iter().cloned().collect();
+                    res.extend(v.iter().filter(|x| !seen.contains(*x)).cloned());
+                    v = res;
+                }
+            }
+        }
         OrderKind::InOrderInvalidTwice => {
             let mut out = vec![];
             for x in &v {
@@ -397,6 +438,9 @@ fn deliver_and_check(
     let order = FIXED_ORDER
         .with(|f| f.borrow().clone())
         .unwrap_or_else(|| make_order(tg, kind, rng));
+    if matches!(kind, OrderKind::SwitchBack) && order != tg.order {
+        r.c01.count("order.SwitchBack.realised");
+    }
     let node = Node::boot(gi, &NodeCfg::default());
     hooks::observe(Some(node.shared.clone()));
     hooks::set_plan(if matches!(kind, OrderKind::InvalidDupLagged) {
